@@ -182,7 +182,9 @@ func prepare(checkptr string, race bool, plain bool) *scratch {
 		return outPath
 	}
 	if plain {
-		s.sim = build("sim", "-gcflags=all=-d=checkptr="+checkptr)
+		// checkptr instruments the library's own pointer conversions only (not the
+		// harness or the standard library, where it would just cost time)
+		s.sim = build("sim", "-gcflags=github.com/go-ap/activitypub=-d=checkptr="+checkptr)
 	}
 	if race {
 		s.simRace = build("sim-race", "-race", "-gcflags=all=-d=checkptr=0")
